@@ -10,7 +10,7 @@ HInit == /\ prog = [t \in Threads |-> <<>>] /\ picking = TRUE
          /\ ctx = [s \in Slots |-> <<FALSE, {}>>]
          /\ pc = [t \in Threads |-> "idle"] /\ h = [t \in Threads |-> 1] /\ k = [t \in Threads |-> 1]
          /\ cur = [t \in Threads |-> <<>>] /\ res = [t \in Threads |-> <<>>]
-         /\ body = 0 /\ built = [x \in DocIds |-> 0]
+         /\ body = [f \in Fams |-> 0] /\ built = [x \in DocIds |-> 0]
 PickOp == /\ picking /\ Len(prog["A"]) < MaxHist
           /\ \E op \in HistOps : prog' = [prog EXCEPT !["A"] = Append(@, op)]
           /\ UNCHANGED <<ctx, pc, h, k, cur, res, body, built, picking>>
